@@ -62,4 +62,8 @@ def run(rep, fb, tier):
     _l2.rule_failure_message_condition(rep, fb)
     _l2.rule_byteswap_width(rep, fb)
     _l2.rule_dtype_case_methods(rep, fb)
+    from ..rules import lints3 as _l3, binding as _bd
+    _l3.rule_narrow_arith(rep, fb)
+    _l3.rule_cond_unsigned(rep, fb)
+    _bd.rule_exception_unthrown(rep, fb)
     rep.units = fb.units
